@@ -48,6 +48,9 @@ type Op struct {
 	Type   string   `json:"type,omitempty"`
 }
 
+// names of the errgroup and context locals of the function being parsed
+var curEg, curCtx = "eg", "ctx"
+
 type Func struct {
 	Name     string    `json:"name"`
 	Params   []Param   `json:"params"`
@@ -55,6 +58,9 @@ type Func struct {
 	Vars     []VarSpec `json:"vars"`
 	HasVar   bool      `json:"has_var"`
 	Eg       string    `json:"eg"` // "", "group", "ctx:<param>"
+	EgName   string    `json:"eg_name"`  // local that holds the errgroup ("" when there is none)
+	CtxName  string    `json:"ctx_name"` // local that holds the group's context
+	CtxFresh bool      `json:"ctx_fresh"` // the context local is a new variable (not the parameter itself)
 	Threads  [][]Op    `json:"threads"`
 	Unparsed []string  `json:"unparsed"`
 }
@@ -179,11 +185,11 @@ func waitStmt(s ast.Stmt) (string, bool, string, bool) {
 			return "", false, "", false
 		}
 		x1, ok := recvOf(e1.X)
-		if !ok || str(x1) != "ctx.Done()" {
+		if !ok || str(x1) != curCtx+".Done()" {
 			return "", false, "", false
 		}
 		form, ee, ok := errRetForm(c1.Body)
-		if !ok || ee != "ctx.Err()" {
+		if !ok || ee != curCtx+".Err()" {
 			return "", false, "", false
 		}
 		return id.Name, true, form, true
@@ -278,7 +284,7 @@ func parseStmts(list []ast.Stmt, inGo bool, f *Func, cur *[]Op, threads *[][]Op)
 			}
 			rhs := str(s.Rhs[0])
 			// errgroup declarations
-			if !inGo && s.Tok == token.DEFINE && len(lhs) == 2 && lhs[0] == "eg" && lhs[1] == "ctx" && strings.HasSuffix(strings.SplitN(rhs, "(", 2)[0], ".WithContext") {
+			if !inGo && s.Tok == token.DEFINE && len(lhs) == 2 && f.Eg == "" && strings.HasSuffix(strings.SplitN(rhs, "(", 2)[0], ".WithContext") {
 				c := s.Rhs[0].(*ast.CallExpr)
 				a, ok := idents(c.Args)
 				if !ok || len(a) != 1 {
@@ -286,13 +292,17 @@ func parseStmts(list []ast.Stmt, inGo bool, f *Func, cur *[]Op, threads *[][]Op)
 					continue
 				}
 				f.Eg = "ctx:" + a[0] + ":" + strings.TrimSuffix(strings.SplitN(rhs, "(", 2)[0], ".WithContext")
+				curEg, curCtx = lhs[0], lhs[1]
+				f.EgName, f.CtxName, f.CtxFresh = lhs[0], lhs[1], lhs[1] != a[0]
 				continue
 			}
-			if !inGo && s.Tok == token.DEFINE && len(lhs) == 1 && lhs[0] == "eg" && strings.HasPrefix(rhs, "&") && strings.HasSuffix(rhs, ".Group{}") {
+			if !inGo && s.Tok == token.DEFINE && len(lhs) == 1 && f.Eg == "" && strings.HasPrefix(rhs, "&") && strings.HasSuffix(rhs, ".Group{}") {
 				f.Eg = "group:" + strings.TrimSuffix(strings.TrimPrefix(rhs, "&"), ".Group{}")
+				curEg = lhs[0]
+				f.EgName = lhs[0]
 				continue
 			}
-			if len(lhs) == 1 && lhs[0] == "_" && s.Tok == token.ASSIGN && rhs == "eg.Wait()" {
+			if len(lhs) == 1 && lhs[0] == "_" && s.Tok == token.ASSIGN && rhs == curEg+".Wait()" {
 				*cur = append(*cur, Op{Op: "egwait", Form: "discard"})
 				continue
 			}
@@ -346,7 +356,7 @@ func parseStmts(list []ast.Stmt, inGo bool, f *Func, cur *[]Op, threads *[][]Op)
 						continue
 					}
 				}
-				if str(c.Fun) == "eg.Go" && len(c.Args) == 1 && !inGo {
+				if str(c.Fun) == curEg+".Go" && len(c.Args) == 1 && !inGo {
 					if fl, ok := c.Args[0].(*ast.FuncLit); ok && fl.Type.Params.NumFields() == 0 && fl.Type.Results.NumFields() == 1 && str(fl.Type.Results.List[0].Type) == "error" {
 						body := fl.Body.List
 						if n := len(body); n > 0 {
@@ -401,7 +411,7 @@ func parseStmts(list []ast.Stmt, inGo bool, f *Func, cur *[]Op, threads *[][]Op)
 			}
 		case *ast.IfStmt:
 			// if err := eg.Wait(); err != nil { return nil, err }
-			if as, ok := s.Init.(*ast.AssignStmt); ok && !inGo && str(as) == "err := eg.Wait()" && str(s.Cond) == "err != nil" && s.Else == nil {
+			if as, ok := s.Init.(*ast.AssignStmt); ok && !inGo && str(as) == "err := "+curEg+".Wait()" && str(s.Cond) == "err != nil" && s.Else == nil {
 				form, ee, ok := errRetForm(s.Body.List)
 				if ok && ee == "err" {
 					*cur = append(*cur, Op{Op: "egwait", Form: "if", ErrRet: form})
@@ -491,6 +501,7 @@ func main() {
 				continue
 			}
 			f := Func{Name: fd.Name.Name, Params: []Param{}, Results: []string{}, Vars: []VarSpec{}, Unparsed: []string{}}
+			curEg, curCtx = "eg", "ctx"
 			if fd.Recv != nil || fd.Type.TypeParams != nil {
 				f.Unparsed = append(f.Unparsed, "receiver or type parameters")
 			}
